@@ -312,10 +312,11 @@ func (r *relay) processor(id uint32) Processor {
 }
 
 func (r *relay) updateTableSize(v uint32) {
-	r.decoderMu.Lock()
-	r.decoder.SetMaxDynamicTableSize(v)
-	r.decoderMu.Unlock()
-
+	// Only the encoder that writes towards the endpoint which announced the
+	// setting is bound by it. The decoder of this relay reads blocks from the
+	// other endpoint, which learns of the new size later (through the forwarded
+	// SETTINGS) and then signals the change inside a header block; resizing the
+	// decoder's table here evicts entries the other endpoint may still refer to.
 	r.encoderMu.Lock()
 	r.encoder.SetMaxDynamicTableSize(v)
 	r.encoderMu.Unlock()
